@@ -662,8 +662,10 @@ class HyperElasticState:
 
         The direction must already be normalized: fiber/sheet directions are
         normalized once when the material is built (see :class:`HolzapfelOgden`),
-        so there is no per-call ``T/||T||`` here — only the component split, with
-        the entries above ``dim`` zeroed.
+        so there is no per-call ``T/||T||`` here — only the component split.
+        The entries above ``dim`` are kept: they meet the unit diagonal of the
+        padded ``C`` (see :meth:`Compute_F`), so that ``T • C • T = 1`` in the
+        reference configuration whatever the direction.
         """
         _params._CheckIsVector(T)
         if not isinstance(T, FeArray):
@@ -671,12 +673,6 @@ class HyperElasticState:
         T = T.astype(float)
 
         Tx, Ty, Tz = T[..., 0], T[..., 1], T[..., 2]
-
-        dim = self._GetDims()[2]
-        if dim == 1:
-            Ty = Tz = 0
-        elif dim == 2:
-            Tz = 0
 
         return Tx, Ty, Tz
 
